@@ -1391,6 +1391,10 @@ def generate(template_path, variant, canary=False):
                     a, b = l[len("@@rewrite_header"):].split("==>", 1)
                     spec.header_rewrites.append((a.strip(), b.strip()))
                     i += 1
+                elif t[0] == "@@gsubst_header":
+                    a, b = l[len("@@gsubst_header"):].split("=>", 1)
+                    spec.header_rewrites.append((a.strip(), b.strip()))
+                    i += 1
                 elif t[0] == "@@dropwhere":
                     spec.dropwhere.append(l[len("@@dropwhere"):].strip())
                     i += 1
